@@ -38,11 +38,18 @@ def run_model(ast, paths):
     with open(job, "w") as f:
         for p in paths:
             f.write(json.dumps({"program": ast, "choices": p}) + "\n")
-    try:
-        r = subprocess.run([INKMODEL, "source", job], capture_output=True, text=True, timeout=600)
-        lines = r.stdout.splitlines()
-    except subprocess.TimeoutExpired:
-        lines = []
+    lines = []
+    for attempt in range(3):
+        # (a run that gives fewer lines than jobs is repeated: the driver is deterministic, so this only
+        #  absorbs a process that was killed or could not start on a loaded machine)
+        try:
+            r = subprocess.run([INKMODEL, "source", job], capture_output=True, text=True, timeout=600)
+            lines = [l for l in r.stdout.split("\n") if l.strip()]
+        except (subprocess.TimeoutExpired, OSError):
+            lines = []
+        if len(lines) >= len(paths):
+            break
+        time.sleep(1 + attempt)
     out = []
     for i in range(len(paths)):
         try:
